@@ -361,3 +361,6 @@ CLAIMED["C13"]["text"] += (" Ninth round - the schema half is now proved on plai
 CLAIMED["C07"]["text"] += (" Ninth round: a library error without a position is a violation (class NOPOS; fix 6051305: Validate of a blank document), the pinned bare recursion error aside; every three-file case also "
                            "runs with unnamed files (fix 3070215: an error was moved to the wrong file when the right one had an empty name).")
 CLAIMED["C04"]["text"] += (" Ninth round: container alternatives next to scalar ones inside or rule-sets.")
+CLAIMED["C15"]["text"] += (" Tenth round: an empty object or array whose or rule wraps a user type in a rule-set is refused by Check like the bare reference (fix 3eabb47; fixed cases).")
+CLAIMED["C18"]["text"] += (" Tenth round: the empty pattern - the token // - is a regex type (fix 2b68297); C18_extract_complete holds for every pattern without an unescaped slash, the empty one included.")
+CLAIMED["C03"]["text"] += (" Tenth round: known finding C03-plain-key-spelled-like-a-key-shortcut (required keys are kept by name only), with corpus cases under a classifier.")
